@@ -201,20 +201,29 @@ func NewSchema(schema *openapi3.Schema, components Sourcer[Schema], opts SchemaO
 				})
 				mapMapping[ref.Name] = &out.Discriminator.Mapping[len(out.Discriminator.Mapping)-1]
 			}
+			// every discriminator value selects exactly one of the oneOf schemas
+			valueOf := map[string]string{}
+			for _, m := range out.Discriminator.Mapping {
+				valueOf[m.Key] = m.Key
+			}
 			for _, k := range sortedKeys(schema.Discriminator.Mapping) {
 				v := schema.Discriminator.Mapping[k]
-				if m, ok := refMapping[v]; ok {
-					mapMapping[m].Values = append(mapMapping[m].Values, k)
-				} else {
-					if _, ok := mapMapping[v]; !ok {
-						out.Discriminator.Mapping = append(out.Discriminator.Mapping, DiscriminatorMapping{
-							Key:    v,
-							Values: nil,
-						})
-						mapMapping[v] = &out.Discriminator.Mapping[len(out.Discriminator.Mapping)-1]
-					}
-					mapMapping[v].Values = append(mapMapping[v].Values, k)
+				name, ok := refMapping[v]
+				if !ok {
+					name = v
 				}
+				m, ok := mapMapping[name]
+				if !ok {
+					return nil, fmt.Errorf("discriminator mapping %q: %q is not one of the oneOf schemas", k, v)
+				}
+				if prev, ok := valueOf[k]; ok {
+					if prev != name {
+						return nil, fmt.Errorf("discriminator value %q is mapped to both %q and %q", k, prev, name)
+					}
+					continue
+				}
+				valueOf[k] = name
+				m.Values = append(m.Values, k)
 			}
 		}
 	}
